@@ -748,6 +748,109 @@ def check_tables(flat: Flat):
     return n
 
 
+def check_dataflow(flat: Flat, top_entry: str, stats=None):
+    """C06 static clause over the flattened result (every edge, declared back
+    edges included; path-insensitive, so it also covers paths that no
+    valuation can take):
+      V-must        forward must-analysis: at every branching block reachable
+                    from the entry its variable is assigned on EVERY incoming
+                    path;
+      V-must-latch  on every cycle from an exiting latch back to itself the
+                    latch's variable is assigned again.
+    The may-analysis of value ranges is only reported (range_may_excess): an
+    exit variable legitimately carries a value outside the exit table on paths
+    that take the back edge."""
+    blocks = flat.blocks
+    succ = {}
+    for n, b in blocks.items():
+        succ[n] = [flat.resolve(t) for t in b._jump_targets]
+    assigns = {n: frozenset(b.variable_assignment) for n, b in blocks.items() if isinstance(b, SyntheticAssignment)}
+    entry = flat.resolve(top_entry)
+    # reachable part
+    reach = {entry}
+    todo = [entry]
+    while todo:
+        n = todo.pop()
+        for s in succ[n]:
+            if s not in reach:
+                reach.add(s)
+                todo.append(s)
+    preds = {n: [] for n in reach}
+    for n in reach:
+        for s in succ[n]:
+            preds[s].append(n)
+    allvars = frozenset(v for a in assigns.values() for v in a) | frozenset(b.variable for b in blocks.values() if isinstance(b, SyntheticBranch))
+    IN = {n: allvars for n in reach}
+    IN[entry] = frozenset()
+    OUT = {n: IN[n] | assigns.get(n, frozenset()) for n in reach}
+    work = list(reach)
+    while work:
+        n = work.pop()
+        if n != entry:
+            new = allvars
+            for p in preds[n]:
+                new = new & OUT[p]
+            IN[n] = new
+        o = IN[n] | assigns.get(n, frozenset())
+        if o != OUT[n]:
+            OUT[n] = o
+            work.extend(succ[n])
+    nb = 0
+    for n in reach:
+        b = blocks[n]
+        if isinstance(b, SyntheticBranch):
+            nb += 1
+            if b.variable not in IN[n]:
+                raise Viol("V-must", f"{b.variable} is not assigned on every path from the entry to {n} (static must-analysis over the flattened result)")
+            if isinstance(b, SyntheticExitingLatch):
+                # search from the latch's successors, not passing assignments of the variable
+                seen = set()
+                todo = list(succ[n])
+                while todo:
+                    m = todo.pop()
+                    if m in seen:
+                        continue
+                    seen.add(m)
+                    if m == n:
+                        raise Viol("V-must-latch", f"a cycle from latch {n} back to itself does not assign {b.variable}")
+                    if b.variable in assigns.get(m, ()):
+                        continue
+                    todo.extend(succ[m])
+    if stats is not None:
+        # may-analysis of values, reported only
+        may = {n: {} for n in reach}
+        work = [entry]
+        outm = {}
+        cnt = 0
+        while work and cnt < 20000:
+            cnt += 1
+            n = work.pop()
+            cur = {k: set(v) for k, v in may[n].items()}
+            b = blocks[n]
+            if isinstance(b, SyntheticAssignment):
+                for k, v in b.variable_assignment.items():
+                    cur[k] = {v}
+            if outm.get(n) == cur:
+                continue
+            outm[n] = cur
+            for s in succ[n]:
+                ch = False
+                for k, v in cur.items():
+                    t = may[s].setdefault(k, set())
+                    if not v <= t:
+                        t |= v
+                        ch = True
+                if ch or s not in outm:
+                    work.append(s)
+        ex = 0
+        for n in reach:
+            b = blocks[n]
+            if isinstance(b, SyntheticBranch) and not may[n].get(b.variable, set()) <= set(b.branch_value_table):
+                ex += 1
+        stats["range_may_excess"] = stats.get("range_may_excess", 0) + ex
+    return nb
+
+
 # --------------------------------------------------------------------------
 # C16 iteration and concealed view
 
